@@ -243,6 +243,22 @@ func buildLaw(f string, sp hspec, n int, vals, other []string, shapes []byte) (l
 					b.m[i] = o[1:]
 				}
 			}
+		case 'e': // a constant written with a needless escape that takes two escape levels to reach the argument's own
+			// compilation (`\\\\x` -> `\\x` -> `\x` -> x): the value is the same, but only if that compilation resolves escapes
+			p := -1
+			for j := 0; j < len(v); j++ {
+				if !strings.ContainsRune("ntr", rune(v[j])) && v[j] < 0x80 {
+					p = j
+					break
+				}
+			}
+			if p < 0 || strings.Contains(v, "\x00") {
+				sb.WriteString(" " + argLit(v))
+			} else if needsQuote(v) {
+				sb.WriteString(" \"" + v[:p] + "\\\\\\\\" + v[p:] + "\"")
+			} else {
+				sb.WriteString(" " + v[:p] + "\\\\\\\\" + v[p:])
+			}
 		case 'n': // a constant nested call
 			sb.WriteString(" {if 1 " + argLit(v) + "}")
 		case 'u': // through a funcs-file function
@@ -268,7 +284,7 @@ func shapePatterns(sp hspec, n int, rnd *rand.Rand, extra int) [][]byte {
 	}
 	out = append(out, all('c'), all('d'), all('k'))
 	for i := 0; i < n; i++ {
-		for _, sh := range []byte("dmxnuw") {
+		for _, sh := range []byte("dmxnuwe") {
 			p := all('c')
 			p[i] = sh
 			out = append(out, p)
@@ -280,7 +296,7 @@ func shapePatterns(sp hspec, n int, rnd *rand.Rand, extra int) [][]byte {
 	for e := 0; e < extra; e++ {
 		p := make([]byte, n)
 		for i := range p {
-			p[i] = "cdkmxnuw"[rnd.Intn(8)]
+			p[i] = "cdkmxnuwe"[rnd.Intn(9)]
 		}
 		out = append(out, p)
 	}
@@ -385,6 +401,13 @@ func c10Law(argv []string) error {
 		"{0}-{1}-{k0}", "\\{0\\}{0}\\t|", "é{0}ü{upper é}", "{id a}{id {0}}{second a b}{second a {1}}", "{wrapk \"\"}|{wrapk {0}}|{wrapk x}",
 		"{if {0} {sumi 1 1} {sumi 2 2}}{unless {0} {upper a}}", "{coalesce {0} {coalesce {1} {sumi 1 2}}}", "  lead {0} trail  ",
 		"{@map {@split {0} \" \"} \"{id {0}}-{k0}\"}", "{@join {@map {$ a b} {wrapk {0}}} ,}", "{sumi {len {0}} {len abc}}{tab a {0} {lower B}}",
+		// escapes: templates without any statement, literal text around statements, arguments (quoted and not) that still carry a
+		// backslash when they reach their own compilation, two levels, arguments of funcs-file calls
+		"a\\tb", "total:\\n", "\\\\", "x\\{0\\}", "\\\"q\\\"", "a\\.b", "\\t{0}\\n", "{0}\\\\{1}\\{",
+		"{@join {@split {0} \" \"} \\\\\\\\n}", "{suffix {0} \\\\\\\\n}{eq {1} \\\\\\\\t}", "{if {0} \"\\\\\\\\tyes\" \"\\\\\\\\tno\"}",
+		"{coalesce {1} \"a\\\\\\\\\\\\\\\\b\"}", "{upper \"\\tq\"}", "{upper \\\\\\tq}", "{id \\\\\\\\t}|{second a \"x\\\\\\\\ny\"}",
+		"{upper {coalesce {0} \\\\\\\\\\\\\\\\\\\\\\\\\\\\\\\\n}}", "{wrapk \"\\\\\\\\t\"}{wrapk \\\\\\\\\\\\\\\\}", "{eq {0} \"b\\\\\\\\ c\"}",
+		"{len \"\\\\\\\\\\{\"}{len \\\\\\\\\\\\\\}}",
 	} {
 		a := lawCtx{m: []string{"b c", "7"}, ks: [][2]string{{"k0", "K"}}}
 		b := lawCtx{m: []string{"", "x"}, ks: [][2]string{{"k0", ""}}}
@@ -581,6 +604,7 @@ type tnode struct {
 type ttpl []*tnode
 
 func tl(s string) ttpl            { return ttpl{{kind: 'l', s: s}} }
+func traw(s string) ttpl          { return ttpl{{kind: 'e', s: s}} } // escape text, only ever at the top level of a body
 func tg(n int) ttpl               { return ttpl{{kind: 'g', n: n}} }
 func tk(s string) ttpl            { return ttpl{{kind: 'k', s: s}} }
 func tc(f string, a ...ttpl) ttpl { return ttpl{{kind: 'c', s: f, args: a}} }
@@ -601,6 +625,8 @@ func (t ttpl) print(top bool) string {
 			if needsQuote(nd.s) {
 				quote = true
 			}
+		case 'e':
+			sb.WriteString(nd.s)
 		case 'g':
 			sb.WriteString("{" + strconv.Itoa(nd.n) + "}")
 		case 'k':
@@ -744,6 +770,10 @@ func randLayout(r *rand.Rand, defs []fdef) string {
 			if phrase[i] == ' ' && i+1 < len(phrase) && phrase[i+1] != ' ' && r.Intn(3) == 0 {
 				pieces = append(pieces, cur)
 				cur = ""
+			} else if phrase[i] == '\\' && i+1 < len(phrase) && phrase[i+1] != ' ' && r.Intn(2) == 0 {
+				// a line break after a backslash of the body: the physical line ends in 2, 3, .. backslashes
+				pieces = append(pieces, cur)
+				cur = ""
 			} else if phrase[i] != ' ' && i+1 < len(phrase) && phrase[i+1] != ' ' && r.Intn(25) == 0 {
 				pieces = append(pieces, cur)
 				cur = ""
@@ -754,7 +784,7 @@ func randLayout(r *rand.Rand, defs []fdef) string {
 			sb.WriteString([]string{"", "  ", "\t", ""}[r.Intn(4)])
 			sb.WriteString(p)
 			if pi < len(pieces)-1 {
-				sb.WriteString([]string{"\\", "\\  ", "\\ # else", "\\\t#x\\"}[r.Intn(4)] + "\n")
+				sb.WriteString([]string{"\\", "\\  ", "\\ # else", "\\\t#x\\", "\\#y"}[r.Intn(5)] + "\n")
 				if r.Intn(3) == 0 {
 					junk()
 				}
@@ -781,6 +811,10 @@ func callInline(w *lawWriter, dir string, nfiles int) int {
 				body = randExpr(r, 1+r.Intn(3), na, defs)
 				if r.Intn(3) == 0 {
 					body = tcat(tl([]string{"pre ", "<", "v="}[r.Intn(3)]), body, tl([]string{" post", ">", ""}[r.Intn(3)]))
+				}
+				if r.Intn(3) == 0 { // escapes in the literal text of the body (top level): \t \n \\ \{ \} \" and a needless one
+					esc := func() ttpl { return traw([]string{"\\t", "\\n", "\\\\", "\\{", "\\}", "\\\"", "\\.", "\\\\\\t", "\\\\\\\\"}[r.Intn(9)]) }
+					body = tcat(tg(r.Intn(na)), esc(), body, esc(), tg(r.Intn(na)))
 				}
 				s := body.print(true)
 				if body.printable(true) && s != "" && s[0] != ' ' && s[len(s)-1] != ' ' && s[len(s)-1] != '\\' && !strings.Contains(s, "  ") {
